@@ -537,7 +537,7 @@ class Atoms:
             comment_string = ""
             comment = None
             if "#" in unprocessed_line:
-                line, comment = unprocessed_line.split('#')
+                line, comment = unprocessed_line.split('#', 1)
                 comment = comment.strip()
                 comment_string ="   # " + comment
             else:
